@@ -113,7 +113,7 @@ Fixpoint steps_agree (h : hst) (l : list stepobs) : bool * hst :=
 (* the final observations: a further thread runs evict_all_unpinned and clear alone *)
 Definition FIN : nat := 1000.
 Definition with_thread (s : st) (t : nat) (p : list op) : st :=
-  mkSt (shs s) (used s) (lim s) (oth s) (thr s ++ [(t, init_thread p)]) (alock s) (glast s) (gleak s) (grace s).
+  mkSt (shs s) (used s) (lim s) (oth s) (thr s ++ [(t, init_thread p)]) (alock s) (glast s).
 Fixpoint run_op_end (n : nat) (t : nat) (s : st) : st :=
   match n with
   | O => s
@@ -257,48 +257,9 @@ Definition spec_ok (c : case) : bool :=
   end.
 
 (* ------------------------------------------------------------------ recorded findings *)
-Definition has_init_failure (steps : list stepobs) : bool :=
-  existsb (fun sobs => match sobs with Step _ _ ev _ => existsb (fun e => result_eqb (snd e) RInitErr) ev end) steps.
-
-(* an operation that can change residency completed in another thread while a clear() was running *)
-Definition race_event (progs : list (nat * list op)) (o : ost) (e : nat * result) : bool :=
-  existsb (fun u => negb (Nat.eqb u (fst e))) (oclearing o)
-  && match cur_op progs o (fst e), snd e with
-     | Some (OGetIns _ _ _), RHit => false
-     | Some (OGetIns _ _ _), _ => true
-     | Some OEvictAll, _ => true
-     | Some OClear, _ => true
-     | _, _ => false
-     end.
-Fixpoint race_in_events (progs : list (nat * list op)) (o : ost) (ev : list (nat * result)) : bool * ost :=
-  match ev with
-  | [] => (false, o)
-  | e :: r => let b := race_event progs o e in let '(b2, o2) := race_in_events progs (oevent progs o e) r in (b || b2, o2)
-  end.
-Fixpoint clear_race (progs : list (nat * list op)) (o : ost) (steps : list stepobs) : bool :=
-  match steps with
-  | [] => false
-  | Step t out ev u :: r =>
-      let o1 :=
-        match out, cur_op progs o t with
-        | OSkipped, _ => o
-        | _, Some OClear => if existsb (Nat.eqb t) (oclearing o) then o
-                            else mkO (odone o) (orefs o) (olast o) (otaint o) (t :: oclearing o) (obad o)
-        | _, _ => o
-        end in
-      let mine := filter (fun e => Nat.eqb (fst e) t) ev in
-      let others := filter (fun e => negb (Nat.eqb (fst e) t)) ev in
-      let '(b, o2) := race_in_events progs o1 (mine ++ others) in
-      b || clear_race progs o2 r
-  end.
-
-Definition known_class (c : case) : Z :=
-  match c with
-  | Case total limit c0 o progs steps fin =>
-      if has_init_failure steps then 1
-      else if clear_race progs (mkO [] [] [] [] [] false) steps then 2
-      else 0
-  end.
+(* F-C35-1 (init failure leaked budget) and F-C35-2 (clear() released a stale page count) are fixed in
+   /repo (1cb9a1e, b391e62): no class is left; their witnesses run with every check and must pass *)
+Definition known_class (c : case) : Z := 0.
 
 Fixpoint failures_from (i : Z) (cs : list case) : list (Z * bool * bool * Z) :=
   match cs with
